@@ -748,6 +748,23 @@ theorem mergeCompat_of_trans (S : Schema) (htr : compatTransB S = true) (d d1 d2
         hp hp' hr1 hr2 (by rw [hl1]; exact ha1.2) ⟨ha2.1, by rw [hl2]; exact ha2.2⟩
     · simp at hm
 
+/-- `merge_succeeds_replace` is the per-case theorem composed with `mergeCompat_of_trans` -/
+example (S : Schema) (htr : compatTransB S = true) (d d1 d2 : Node)
+    (f t f' t' : Nat) (sl sl' : Slice) (m : Step)
+    (hv : S.checkNode d = true) (hn : fnorm d.kids = true)
+    (hsn : fnorm sl.content = true) (hsn' : fnorm sl'.content = true)
+    (hp : openValid S sl.openStart sl.openEnd sl.content = true)
+    (hp' : openValid S sl'.openStart sl'.openEnd sl'.content = true)
+    (h1 : S.apply (.replace f t sl false) d = .ok d1)
+    (h2 : S.apply (.replace f' t' sl' false) d1 = .ok d2)
+    (hm : (Step.replace f t sl false).merge (.replace f' t' sl' false) = some m)
+    (ha1 : alignedAt d1.kids f = true ∧ alignedAt d1.kids (f + sl.size.toNat) = true)
+    (ha2 : alignedAt d2.kids f' = true ∧ alignedAt d2.kids (f' + sl'.size.toNat) = true) :
+    S.apply m d = .ok d2 :=
+  merge_succeeds_replace_backward S d d1 d2 f t f' t' sl sl' m
+    (mergeCompat_of_trans S htr d d1 d2 f t f' t' sl sl' m hv hn hsn hsn' hp hp' h1 h2 hm ha1 ha2)
+    hv hn hsn hsn' hp hp' h1 h2 hm ha1 ha2
+
 /-- **the per-case guard is necessary**: if the pair applies, merges, and the merged step applies, then
     `mergeCompat` holds (a successful replace has run `check_join` on the ancestors of its two ends at every
     level above its slice, `replaceKids_anc`) -/
